@@ -923,4 +923,25 @@ example : (gGen (gFile [wG1, wG2]) [100, 276]).filterMap gYield = [wG1.blocks, w
     ∧ (wG2.blocks.map (fun b => (b.1, b.2.length))) = [(0, 36), (3, 12), (4, 12)] := by
   refine ⟨by decide, by decide⟩
 
+/-! ## LAMMPS atom lines that end in a blank (what `dump custom` writes): the late-newline skip misses
+
+`LmpF.WF` asks for no blank behind the trailing id.  Real LAMMPS dumps end every atom line with `"id \n"`.  Then a
+poll that sees a frame up to its last id — but not the `" \n"` behind it — accepts the frame (nine tokens, first =
+last) and leaves `current_position` in front of `" \n"`; the next poll starts on the line `" \n"`, which the skip
+`if i == 0 and line == "\n"` does not match, so every line number is off by one and `int("ITEM:")` raises. -/
+
+/-- "T\n0\nN\n1\nB\n0 1\n0 1\n0 1\nA\n1 1 1 2 3 4 5 6 1 \n" (43 bytes): `wL1` with a blank behind the trailing id -/
+def wLT : LmpF :=
+  { wL1 with atoms := [['1', ' ', '1', ' ', '1', ' ', '2', ' ', '3', ' ', '4', ' ', '5', ' ', '6', ' ', '1', ' ', '\n']] }
+
+/-- **NO EXCEPTION fails for `lammpstrj_reader` on trailing-blank atom lines** (candidate finding, open): with 41
+    of 86 bytes visible (frame 1 up to its last id) the frame is returned; the next poll, on the complete file,
+    raises `ValueError`.  Cuts one byte earlier or later are fine. -/
+theorem lmp_trailing_blank_counterexample :
+    pollAll lmpReader (lmpContent [wLT, wLT]) [41] 0 = .ok [[wLT.decode 1]]
+    ∧ pollAll lmpReader (lmpContent [wLT, wLT]) [41, 86] 0 = .error .value
+    ∧ pollAll lmpReader (lmpContent [wLT, wLT]) [40, 86, 86] 0 = .ok [[], [wLT.decode 1, wLT.decode 1], []]
+    ∧ pollAll lmpReader (lmpContent [wLT, wLT]) [42, 86, 86] 0 = .ok [[wLT.decode 1], [], [wLT.decode 1]] := by
+  refine ⟨by decide, by decide, by decide, by decide⟩
+
 end Infretis.C13
